@@ -627,6 +627,27 @@ class ProgGen(Gen):
         # an identity function called with a literal would return a pointer into the program text (not modelled)
         return cat(e, self.literal()) if has_fn(e, 'FNI$') else e
 
+    lit_cell = None
+
+    def action(self):
+        """As Gen.action, plus the pattern 'a variable that still points at a program literal is modified in place by MID$ / LSET /
+        RSET from another variable' (the literal is copied to string space first; under memory pressure that copy collects garbage
+        and moves the source: round-4 seeded change C10d read the source pointer before the copy)."""
+        rng = self.rng
+        if self.lit_cell and rng.random() < 0.5:
+            c, n = self.lit_cell
+            self.lit_cell = None
+            src = var(rng.choice([x for x in SCAL if x != c]))
+            if rng.random() < 0.7:
+                return {'op': 'midset', 'c': c, 's': rng.randint(1, max(1, n - 1)), 'n': rng.choice([255, 255, 3, n]), 'e': src}
+            return {'op': rng.choice(['lset', 'rset']), 'c': c, 'e': src}
+        if rng.random() < 0.12:
+            c = rng.choice(SCAL)
+            n = rng.choice([8, 12, 20, 30, 45, 60])
+            self.lit_cell = (c, n)
+            return {'op': 'let', 'c': c, 'e': lit(bytes(rng.choice(LETTERS) for _ in range(n)))}
+        return Gen.action(self)
+
 
 def has_fn(e, f):
     if not isinstance(e, dict):
